@@ -137,7 +137,7 @@ pub fn gen(seed: u64, thorough: bool, only: Option<u64>, out: &mut Out) {
           r.shuffle(&mut mix);
           let obs2 = match decode_all(&mix) {
             Some(d) => recover_obs(&d),
-            None => "decode-err".into(),
+            None => "err".into(),
           };
           let want = format!("ok {} {}", hex(&m), statics[0]);
           out.case(
